@@ -190,6 +190,19 @@ def run_driver(work, binp, defs_path, scenarios, env=None, maxstack=0, step_time
         restarts += 1
         if restarts > 200:
             raise MachineryError("driver keeps dying")
+        if pending is None and not lines:
+            # the process died before it executed anything (package initialisation): that is an observation
+            # about the first step of the batch under this environment; nothing else of the batch can run
+            sc = scenarios[skip]
+            st0 = sc["steps"][0]
+            records.append({"ev": "Scenario", "scen": skip, "sid": sc["sid"], "prop": sc.get("prop", ""), "vals": sc.get("vals", [])})
+            records.append({"scen": skip, "sid": sc["sid"], "step": 0, "ev": EV_OF_OP.get(st0.get("op"), "Unknown"),
+                            "ty": st0.get("ty", ""), "v": st0.get("v", 0), "buflen": 0, "orig": -1, "in": st0.get("in", []),
+                            "pattern": "", "entry": st0.get("entry", ""), "arg": st0.get("arg", "ptr"), "class": "", "rep": 0,
+                            "call": st0.get("call", ""), "calls": 0, "d": 1 << 30, "levels": 1 << 30, "len": 0,
+                            "obs": {"out": "crash", "rc": p.returncode, "at": "process start-up",
+                                    "stderr": p.stderr.decode(errors="replace")[:600]}})
+            break
         if pending is None:
             # died between steps: attribute nothing, resume behind the last scenario seen
             last = max([r.get("scen", skip) for r in lines if "scen" in r] + [skip])
@@ -244,7 +257,7 @@ def judge(work, defs_path, records, module="ApiTrace", nshards=None, timeout=300
     """Returns (rejections, stats).  A rejection is the record TLC printed plus 'line'
     (the trace record it refers to)."""
     if not records:
-        return [], {"lines": 0, "states": 0}
+        return [], {"lines": 0, "states": 0, "transitions": 0, "shards": 0, "classes": {}}
     if not nshards:
         # measured on this machine: one TLC run judges ~500 lines/s, and many concurrent JVMs
         # slow each other down badly, so shards are few and large
